@@ -21,6 +21,12 @@ OBS_NAMES = ["Outcome", "OnlyDest", "NoClobber", "DirKept", "ReplaceOnlyIfNamed"
 PLAIN = ["data.bin", "ünï cödé.txt", " spaced name ", "-rf", "a\\b", "x.tmp", "CON", "a" * 120]
 
 
+# basenames that are ordinary file names as they stand, and turn into separators / parent references under some well-meant
+# transformation of the name (Unicode compatibility normalisation, percent-decoding, case folding, stripping)
+LOOKALIKE = ["..\uff0fevil.txt", "\uff0fabs\uff0fpath", "\u2025", "\uff0e\uff0e", "..\uff0f..\uff0fvictim.txt", "%2e%2e%2fx", "..%2Fkeep.txt",
+             "cafe\u0301.txt", "\u2024\u2024\uff0fkeep.txt", " ..", ".. ", "..\u2215x", "\ufe52\ufe52\uff0fkeep.txt"]
+
+
 def offered_name(base, decor, plain, root):
     last = {"plain": plain, "empty": "", "dot": ".", "dotdot": ".."}[base]
     if decor == "none":
@@ -238,6 +244,15 @@ def run(prop, tier):
                     obs = execute(root, case, decision, plain)
                     obs.update({"tid": tid, "case": case, "expect": decision, "kind": "dest"})
                     records.append(obs)
+            # family: look-alike basenames (the destination is named by the offer's basename exactly as offered)
+            for (_, case, decision) in cases:
+                if case["base"] == "plain" and case["decor"] in ("none", "parent") and case["pre"] == "none" and not case["pretmp"]:
+                    for plain in (LOOKALIKE if not quick or case["accept"] else LOOKALIKE[:5]):
+                        tid += 1
+                        obs = execute(root, case, decision, plain)
+                        obs.update({"tid": tid, "case": case, "expect": decision, "kind": "dest", "origin": "family:lookalike"})
+                        records.append(obs)
+            cov["lookalike_basenames"] = len(LOOKALIKE)
             # zip members: destination decided normally (plain name, nothing pre-existing), archive is hostile
             base_case = {"mode": "directory", "base": "plain", "decor": "none", "out": "unset", "accept": True, "pre": "none", "pretmp": False}
             for (_, mc, verdict) in members:
